@@ -73,11 +73,6 @@ Fixpoint all_lens (t : tree) : list (option Z) :=
   match t with T _ _ _ e ks => e :: flat_map all_lens ks end.
 Definition nonroot_lens (t : tree) : list (option Z) := flat_map all_lens (t_kids t).
 
-(* the hypothesis forced by collapse_basal_bifurcation's try/except: the non-seed edge lengths are
-   all defined or all absent *)
-Definition uniform_lengths (t : tree) : Prop :=
-  Forall (fun e => e <> None) (nonroot_lens t) \/ Forall (fun e => e = None) (nonroot_lens t).
-
 (* the node with identity n exists and has children *)
 Definition is_internal_node (n : Z) (t : tree) : Prop :=
   exists X, find_node n t = Some X /\ t_kids X <> [].
